@@ -270,6 +270,14 @@ func TestC03(t *testing.T) {
 		if err != nil {
 			V.HarnessError(t, "cannot start lab instance: %v", err)
 		}
+		if !v.Default && vi%2 == 1 {
+			// on every other instance the usual next hops are elements the proxy has
+			// heard from before (it then reaches them through the listener that
+			// learned them): where a request goes is the same
+			if err := svc.primeHops(); err != nil {
+				V.HarnessError(t, "priming: %v", err)
+			}
+		}
 		iname := fmt.Sprintf("keep=%q,default=%v", v.Keep, v.Default)
 		for route := 0; route < 4; route++ {
 			for to := 0; to < 3; to++ {
